@@ -1,6 +1,6 @@
 #!/bin/bash
-# usage: tools/take10.sh <PID>  -- copy a round-10 sub-agent's deliverables into seeded/<PID>_agent10 and confirm them
-P=$1; S=/verif/seeded/${P}_agent10
-mkdir -p $S && cp /tmp/w10_$P/OUT/patch.diff /tmp/w10_$P/OUT/seeded_demo.rs /tmp/w10_$P/OUT/meta.json $S/ || exit 2
-git -C /repo worktree remove --force /tmp/w10_$P; rm -rf /tmp/w10_$P
+# usage: tools/take10.sh <PID>  -- copy a round-10 sub-agent's deliverables into seeded/<PID>_agent${R:-10} and confirm them
+P=$1; S=/verif/seeded/${P}_agent${R:-10}
+mkdir -p $S && cp /tmp/w${R:-10}_$P/OUT/patch.diff /tmp/w${R:-10}_$P/OUT/seeded_demo.rs /tmp/w${R:-10}_$P/OUT/meta.json $S/ || exit 2
+git -C /repo worktree remove --force /tmp/w${R:-10}_$P; rm -rf /tmp/w${R:-10}_$P
 python3 /verif/tools/confirm_seeded.py $S
